@@ -263,6 +263,14 @@ def check(prop, tier, seed, no_build=False):
             for t, why in bad:
                 proof_ok = False
                 result['proof_errors'].append('audit: %s: %s' % (t, why))
+            if proof_ok and tier == 'thorough':
+                # independent re-check of the compiled property modules
+                for m in modules:
+                    rcl, outl = C.run(['lake', 'env', 'leanchecker', m], cwd=C.LEAN, timeout=3000)
+                    cov.setdefault('leanchecker', {})[m] = 'ok' if rcl == 0 else outl[-300:]
+                    if rcl != 0:
+                        proof_ok = False
+                        result['proof_errors'].append('leanchecker rejected %s: %s' % (m, outl[-300:]))
             forb = C.grep_forbidden()
             if forb:
                 proof_ok = False
@@ -302,7 +310,7 @@ def check(prop, tier, seed, no_build=False):
             if tier == 'thorough' and not violations:
                 for engine in sorted(set(r[0] for r in cfg.get('iruns', []))):
                     if engine in gens.EXHAUSTIVE and not violations:
-                        violations += C.differential_exhaustive(engine, gens.EXHAUSTIVE[engine], result)
+                        violations += C.differential_exhaustive(engine, gens.EXHAUSTIVE[engine], result, cap=12000)
             for run in cfg.get('runs', []):
                 engine, gen, nq, nt = run[:4]
                 n = nq if tier == 'quick' else nt
